@@ -20,7 +20,8 @@ class Run(object):
         self.cost = lab.Cost('c0', cfg['cost'])
         self.extra = tuple(FL(cfg.get('extra') or []))
         init = cfg['init']
-        lab.apply_init(s, init)
+        self.x0_buf = lab.apply_init(s, init)
+        self.nsteps = 0
         self.box = None
         b = cfg.get('bounds')
         if b:
@@ -63,6 +64,9 @@ class Run(object):
     def step(self):
         kw = self.first_kw; self.first_kw = {}
         self.msg = self.solver.Step(callback=self.cb, **kw)
+        self.nsteps += 1
+        if self.x0_buf is not None and self.nsteps == 1:
+            self.x0_buf += 1000.0           # the caller reuses its array after the first iteration
         return self.msg
 
     # ---- the objective the solver minimises, computed by the harness ----------
@@ -175,6 +179,8 @@ def configs(draw, tier='quick', solvers=lab.SOLVERS, need_constraint=False, allo
             fr = draw(st.lists(st.sampled_from([0.0, 0.25, 0.5, 0.75, 1.0]), min_size=dim, max_size=dim))
             x0 = [F(l) + f * (F(h) - F(l)) for l, h, f in zip(box[0], box[1], fr)]
         cfg['init'] = dict(kind='point', x0=x0)
+        if draw(st.integers(0, 3)) == 0:
+            cfg['init']['as_array'] = True
     cfg['maxiter'] = draw(st.integers(1, 12 if tier == 'quick' else 25))
     cfg['maxfun'] = draw(st.sampled_from([None, None, None, 5, 20, 60]))
     cfg['term'] = draw(st.sampled_from(['never', 'never', 'cog', 'default']))
